@@ -1311,6 +1311,293 @@ def run_users(chk: Check):
     chk.obligation('oracle:error rendering (FailedParse, ParseError, memento)', 'oracle', bad == 0)
 
 
+# ------------------------------------------------------------------ users: the message of an error is the text that gets styled
+# every character str.splitlines() treats as a line boundary ('\r\n' as one boundary)
+LINE_BREAKS = ['\n', '\r', '\r\n', '\x0b', '\x0c', '\x1c', '\x1d', '\x1e', '\x85', '\u2028', '\u2029']
+MSG_LINES = ['', '', 'a', 'b c', ' ', '  ^', '\t', 'start = expr ;', "expecting '}'", 'f{a:>3}', '{}', '{0}', '{', ':', '%s', 'error:',
+             'é', 'é', '漢字', '😀', '\xa0', '​', '\\', '\\n', '\\e[1m', '[bold]x[/]', '[1m', 'x' * 38, 'y' * 41, '0', 'None']
+
+
+def gen_message(rng, esc_free=True):
+    """a message of several lines: LF-separated most of the time, any other line boundary otherwise; empty first / middle /
+    last lines; texts with braces, colons, backslashes, wide / combining / non-printable characters"""
+    n = rng.choice([1, 1, 2, 2, 3, 3, 4, 6])
+    lf_only = rng.random() < 0.35
+    out = []
+    for i in range(n):
+        r = rng.random()
+        line = rng.choice(MSG_LINES) if r < 0.6 else gen_text(rng, nonempty=False, maxn=4) if r < 0.9 else rng.choice(MSG_LINES) + rng.choice(MSG_LINES)
+        if lf_only:
+            line = ''.join(ch for ch in line if ch == '\n' or len((ch + 'x').splitlines()) == 1)
+        out.append(line)
+        if i + 1 < n or rng.random() < 0.25:
+            out.append('\n' if lf_only or rng.random() < 0.4 else rng.choice(LINE_BREAKS))
+    if rng.random() < 0.15:
+        out.insert(0, '\n' if lf_only else rng.choice(LINE_BREAKS))
+    t = ''.join(out)
+    if not esc_free:
+        k = rng.randrange(len(t) + 1)
+        t = t[:k] + rng.choice([ESC, ESC + '[1m', ESC + '[0m', ESC + '[31;1m']) + t[k:]
+    elif ESC in t:
+        t = t.replace(ESC, '')
+    return t
+
+
+def message_class(m):
+    """shape class of a (shrunk) message for signatures"""
+    if not m:
+        return 'empty'
+    feats = []
+    other = [b for b in LINE_BREAKS if b != '\n' and b in m]
+    if '\r\n' in m:
+        feats.append('crlf')
+    elif '\r' in m:
+        feats.append('cr')
+    if any(b in m for b in LINE_BREAKS[3:]):
+        feats.append('unicode-break')
+    if '\n' in m.replace('\r\n', ''):
+        feats.append('lf-trailing' if m.count('\n') == 1 and m.endswith('\n') else 'lf')
+    if not other and '\n' not in m:
+        feats.append('one-line')
+    if ESC in m:
+        feats.append('esc')
+    if any(c in m for c in '{}:%'):
+        feats.append('fmtchar')
+    if len(m) > 40:
+        feats.append('long')
+    return '+'.join(feats)
+
+
+def shrink_text(t, fails):
+    """greedy deletion of characters / chunks while `fails` stays true"""
+    step = max(1, len(t) // 2)
+    while step >= 1:
+        i = 0
+        while i < len(t):
+            cand = t[:i] + t[i + step:]
+            if cand != t and fails(cand):
+                t = cand
+            else:
+                i += step
+        step //= 2
+    return t
+
+
+def ref_error_text(msg):
+    """what ParseError.__str__ shows, escapes aside: 'error: ' and the message.  The code styles the part before the first LF
+    and appends the remainder after an LF *if the remainder is not empty*: a message whose only LF is its last character is
+    shown without it (counted, see notes: trimming by the plain composition, independent of styling); nothing for ''."""
+    if not msg:
+        return ''
+    if msg.count('\n') == 1 and msg.endswith('\n'):
+        msg = msg[:-1]
+    return 'error: ' + msg
+
+
+def ref_memento_plain(msg, text, source, line, col, stack):
+    """layout of contexts/memento.py with every style removed"""
+    lines = text.splitlines()
+    w = len(str(line + 1))
+    out = [f'error: {msg}', f'  -> {source or "<unknown>"}[{line + 1}:{col + 1}]', '   │']
+    for i in range(max(0, line - 4), min(line + 1, len(lines))):
+        out.append(f' {i + 1:>{w}} │ {lines[i].expandtabs()}')
+    shown = msg if len(msg) <= 40 else msg[:37] + '...'
+    out.append(' ' + ' ' * (w + 1) + '│ ' + ' ' * max(0, col) + '⌃ ' + ' ' + shown)
+    out.append('')
+    out.extend(f'→ {call}' for call in stack)
+    return '\n'.join(out) + '\n'
+
+
+class _Shown:
+    """a non-str first argument: the rendering goes through str()"""
+
+    def __init__(self, s):
+        self.s = s
+
+    def __str__(self):
+        return self.s
+
+
+def run_messages(chk: Check):
+    """The message of ParseError / GrammarError / CodegenError / HeartDied (and subclasses), and the message, source lines and
+    rule names of the parse-failure report, are texts handed to styles: rendered with colour off they are the text, with colour
+    on they are that same text once the escapes are removed - for every message, in particular messages of several lines with
+    any line boundary, not only LF."""
+    import tatsu.exceptions as X
+    from tatsu.contexts.memento import memento
+    from tatsu.input import LineInfo
+    from tatsu.util import tty
+    rng = chk.rng
+    bad = 0
+
+    def subclasses(c):
+        yield c
+        for s in c.__subclasses__():
+            yield from subclasses(s)
+
+    class LocalError(X.GrammarError):
+        pass
+
+    classes = [c for c in dict.fromkeys(subclasses(X.ParseError)) if c.__module__ == X.__name__ or c is LocalError]
+    chk.count('messages.ParseError-classes', len(classes))
+    envs = [(nc, fc, ot, et) for nc in (None, '', '1') for fc in (None, '', '1') for ot in (False, True) for et in (False, True)]
+    env_off = next(e for e in envs if not decide((None, *e[:2], True, *e[2:])))
+    env_on = next(e for e in envs if decide((None, *e[:2], True, *e[2:])))
+    core_envs = [(None, None, False, False), (None, '1', False, False), ('1', None, True, True), (None, None, False, True)]
+
+    def render(cls, shape, msg, env, other=None):
+        with EnvCfg(*env):
+            if shape == 'str':
+                e = cls(msg)
+            elif shape == 'extra':
+                e = cls(msg, 'detail', 3)
+            elif shape == 'object':
+                e = cls(_Shown(msg))
+            elif shape == 'raised':
+                try:
+                    raise cls(msg)
+                except X.ParseError as e2:
+                    e = e2
+            else:
+                e = cls()
+            a, b = str(e), str(e)
+            f = f'{e}'
+        if other is not None:
+            # the same exception object shown again after the environment changed follows the new environment
+            with EnvCfg(*other):
+                f = f if str(e) == str(cls(*e.args)) else f + '<stale>'
+        return a, b, f
+
+    def clauses(cls, shape, msg, env):
+        """names of the clauses violated by this case"""
+        en = decide((None, env[0], env[1], True, env[2], env[3]))
+        a, b, f = render(cls, shape, msg, env, other=env_on if not en else env_off)
+        want = ref_error_text(msg if shape != 'noargs' else '')
+        out = []
+        if a != b or a != f:
+            out.append('stale-after-environment-change' if f.endswith('<stale>') and a == b else 'unstable')
+        if not en:
+            if a != want:
+                out.append('plain-text' if not (ESC in a and ESC not in msg) else 'disabled-has-escape')
+        else:
+            if want and ESC not in a:
+                out.append('enabled-unstyled')
+            if ESC not in msg:
+                if tty.descape(a) != want:
+                    out.append('styled-text')
+                elif tty.visual_len(a) != len(want):
+                    out.append('visible-length')
+            off = render(cls, shape, msg, env_off)[0]
+            if ESC not in msg and tty.descape(a) != off:
+                out.append('styled-vs-plain')
+        return out
+
+    def judge(cls, shape, msg, env):
+        nonlocal bad
+        chk.case(f'msg:{cls.__name__}:{shape}:{msg}:{env}', nontrivial=bool(msg))
+        chk.count('messages.error-renderings')
+        if any(b in msg for b in LINE_BREAKS if b != '\n'):
+            chk.count('messages.with-a-line-boundary-other-than-LF')
+        if msg.count('\n') == 1 and msg.endswith('\n'):
+            chk.count('messages.single-trailing-LF (shown without it)')
+        got = clauses(cls, shape, msg, env)
+        if not got:
+            return
+        bad += 1
+        clause = got[0]
+        small = shrink_text(msg, lambda m: clause in clauses(cls, shape, m, env))
+        en = decide((None, env[0], env[1], True, env[2], env[3]))
+        chk.violation(f'oracle:error-message-{clause}:{"on" if en else "off"}:{message_class(small)}',
+                      f'{cls.__name__}.__str__: the styled rendering of the message is not the message ({clause})',
+                      {'oracle': "colour off: str(e) == 'error: ' + message; colour on: descape(str(e)) == 'error: ' + message, "
+                                 'visual_len agrees, str() is stable', 'class': cls.__name__, 'args': shape, 'message': small,
+                       'original_message': msg, 'env(NO_COLOR,FORCE_COLOR,stdout tty,stderr tty)': str(env),
+                       'output': render(cls, shape, small, env)[0], 'expected_text': ref_error_text(small)})
+
+    # exhaustive small scope: every message of up to 3 atoms over {a, space, every line boundary}; ParseError under 4 environments
+    atoms = ['a', ' ', *LINE_BREAKS]
+    small = [''.join(p) for n in range(0, 4) for p in itertools.product(atoms, repeat=n)]
+    small = list(dict.fromkeys(small))
+    for m in small:
+        for env in core_envs:
+            judge(X.ParseError, 'str', m, env)
+    for cls in classes:
+        for shape in ('str', 'extra', 'object', 'raised', 'noargs'):
+            for m in ['', 'x', 'first line\nsecond', 'a\r\nb', 'a\u2028b\n', '\n']:
+                judge(cls, shape, m, rng.choice(envs))
+    for k in range(2500 if chk.quick else 40000):
+        judge(rng.choice(classes), rng.choice(['str', 'str', 'str', 'extra', 'object', 'raised']),
+              gen_message(rng, esc_free=rng.random() < 0.93), rng.choice(envs) if k % 3 else rng.choice(core_envs))
+    chk.obligation("oracle:error messages (ParseError family): colour off -> 'error: ' + message, colour on -> the same once de-escaped; "
+                   'every line boundary, all environment policies', 'oracle', bad == 0)
+
+    # ---- the parse-failure report, called directly: message / source text / rule names are arbitrary texts
+    bad2 = 0
+    pols = [(None, '1', None, True, True, True), (None, None, None, True, False, False), (False, None, '1', True, True, True),
+            (None, None, '1', True, False, False), (True, '1', None, True, False, False), (True, None, None, False, False, False),
+            (None, None, None, True, True, True), (None, None, None, False, True, False), (False, None, None, False, True, True)]
+    names = ['start', 'expr', 'término', '规则', 'a_b', '_', 'x1', 'Rule', 'f{a:>3}', '{}']
+
+    def report(pol, args):
+        force, nc, fc, cs, ot, et = pol
+        msg, text, source, line, col, stack = args
+        with EnvCfg(nc, fc, ot, et):
+            return memento(msg, text, LineInfo(source, line, col, 0, 0, ''), list(stack), color=mk_color(force, cs))
+
+    def report_clauses(pol, args):
+        msg, text, source, line, col, stack = args
+        clean = ESC not in msg + text + source + ''.join(stack)
+        en = decide(pol)
+        r = report(pol, args)
+        want = ref_memento_plain(*args)
+        out = []
+        if not en:
+            if r != want:
+                out.append('disabled-has-escape' if clean and ESC in r else 'plain-text')
+        else:
+            if ESC not in r:
+                out.append('enabled-unstyled')
+            if clean and tty.descape(r) != want:
+                out.append('styled-text')
+        return out
+
+    for k in range(1200 if chk.quick else 20000):
+        msg = gen_message(rng, esc_free=rng.random() < 0.95) if k % 4 else rng.choice(MSG_LINES)
+        nl = rng.randint(0, 7)
+        text = ''.join(rng.choice(MSG_LINES) + (rng.choice(LINE_BREAKS) if rng.random() < 0.3 else '\n') for _ in range(nl))
+        if rng.random() < 0.3:
+            text += rng.choice(MSG_LINES)
+        text = text.replace(ESC, '')
+        nlines = len(text.splitlines())
+        line = rng.choice([0, max(0, nlines - 1), nlines, rng.randint(0, nlines + 1), 9, 99])
+        col = rng.choice([0, 0, 1, 3, rng.randint(0, 45)])
+        source = rng.choice(['', 'g.ebnf', 'dir/é 漢.tatsu', '<string>', 'C:\\x\\g.ebnf'])
+        stack = tuple(rng.choice(names) for _ in range(rng.randint(0, 4)))
+        args = (msg, text, source, line, col, stack)
+        pol = rng.choice(pols)
+        chk.case(f'memento:{args}:{pol}')
+        chk.count('messages.report-renderings')
+        got = report_clauses(pol, args)
+        if not got:
+            continue
+        bad2 += 1
+        clause = got[0]
+        fails = lambda a: clause in report_clauses(pol, a)  # noqa: E731
+        m2 = shrink_text(msg, lambda m: fails((m, *args[1:])))
+        t2 = shrink_text(text, lambda t: fails((m2, t, *args[2:])))
+        st2 = stack
+        while st2 and fails((m2, t2, source, line, col, st2[1:])):
+            st2 = st2[1:]
+        a2 = (m2, t2, source, line, col, st2)
+        chk.violation(f'oracle:failure-report-{clause}:{"on" if decide(pol) else "off"}:{message_class(m2)}',
+                      f'memento(): the report with its escapes removed is not the report of the same texts ({clause})',
+                      {'oracle': 'colour off: memento(...) == the layout filled with the texts; colour on: the same once de-escaped',
+                       'args(msg,text,source,line,col,rulestack)': repr(a2), 'policy': str(pol), 'output': report(pol, a2),
+                       'expected_text': ref_memento_plain(*a2)})
+    chk.obligation('oracle:parse-failure report (memento) over arbitrary messages / source texts / rule names: text unchanged by styling',
+                   'oracle', bad2 == 0)
+
+
 def run_translator(chk: Check):
     import t_style
     try:
@@ -1338,6 +1625,10 @@ def main():
                 'derived style, each under an explicit or default policy with the process default (NO_COLOR/FORCE_COLOR/tty) set '
                 'independently, and re-rendered in an environment with the opposite default; styles derived by random chains of '
                 'builder methods / __call__ / copy / Color.style / XStyle names under the same policy x environment grid. '
+                'Error messages: every ParseError subclass x argument shapes x all strings of up to 3 atoms over {a, space, every '
+                'str.splitlines boundary} plus random messages of 1-6 lines with mixed line boundaries / empty lines / braces / wide and '
+                'non-printable characters / long lines, under all 36 environments; memento() directly over random message, source '
+                'text, position, rule stack and policy. '
                 'Non-trivial: text non-empty and style/spec non-default / string contains ESC / a styled markup segment; '
                 'distinct by content hash.')
     chk.trusted += ['Python re (ANSI_RE, SGR_RE, the parse_fmt regex), str.__format__, repr(str), str.isprintable (oracle table of the model)',
@@ -1365,6 +1656,7 @@ def main():
         table, bnames, xnames = run_markup(chk, mr, enabled_of)
         run_derive(chk, mr, bool(defs['dunder_format_restyles']), enabled_of, table, bnames, xnames)
         run_users(chk)
+        run_messages(chk)
     chk.exhaustive = False
     return chk.finish()
 
